@@ -313,4 +313,36 @@ theorem parseP_renderText (p : Policy inj) (g : GoodDelim d) (crlf : Bool) (rs :
     rw [streamP_snoc_nl d inj p, h]
     simp [finish]
 
+/-- without carriage returns in the text every admissible policy cuts the same lines: those ending at `'\n'` -/
+theorem splitP_eq_lf_of_no_cr (inj : Char → List Char → Bool) (p : Policy inj) :
+    ∀ t : List Char, (∀ c ∈ t, c ≠ '\r') → splitP inj t = splitP lf t := by
+  intro t
+  induction t with
+  | nil => intro _; rfl
+  | cons c cs ih =>
+    intro h
+    have hc : c ≠ '\r' := h c List.mem_cons_self
+    have ih' := ih (fun x hx => h x (List.mem_cons_of_mem _ hx))
+    by_cases hn : c = '\n'
+    · subst hn
+      simp only [splitP, p.nl, lf, beq_self_eq_true, ↓reduceIte, ih']
+    · have hnl : isNL c = false := by
+        simp only [isNL, Bool.or_eq_false_iff, beq_eq_false_iff_ne, ne_eq]
+        exact ⟨hn, hc⟩
+      have hlf : lf c cs = false := by simpa [lf] using hn
+      simp only [splitP, p.ordinary c cs hnl, hlf, Bool.false_eq_true, ↓reduceIte, ih']
+
+/-- hence the records read from such a text are the same for every kind of source -/
+theorem parseP_eq_of_no_cr (d : Char) (inj : Char → List Char → Bool) (p : Policy inj) (t : List Char)
+    (h : ∀ c ∈ t, c ≠ '\r') : parseP d inj t = parseText d t := by
+  unfold parseP
+  rw [splitP_eq_lf_of_no_cr inj p t h]
+  have : splitP lf t = splitLF t := by
+    clear h
+    induction t with
+    | nil => rfl
+    | cons c cs ih => simp only [splitP, splitLF, lf, ih]
+  rw [this, parseLines_splitLF]
+
+
 end Serif.CsvLex
